@@ -6,7 +6,6 @@ import (
 	"go/types"
 	"regexp"
 	"sort"
-	"strconv"
 	"strings"
 	"unicode"
 
@@ -708,34 +707,22 @@ func printsSML(p *Prog, fn *ssa.Function, f itemFormat) (detail string, decided,
 	if elem == nil || !ok {
 		return "", false, false
 	}
+	// The element values stay unknown: the text of an element is whatever the
+	// printer's strconv call yields for it, here the opaque placeholder "§"
+	// (the notation obligation decides, for all values, that this call is the
+	// right one). Only booleans, which are printed without such a call, take
+	// their two values.
 	var vals []Val
 	var texts []string
+	opaque := true
 	switch {
 	case f.Node == "BinaryNode":
-		for _, x := range []int64{0, 5, 255} {
-			vals = append(vals, int64Val(x))
-			texts = append(texts, "0b"+strconv.FormatInt(x, 2))
-		}
+		texts = []string{"0b§", "0b§", "0b§"}
 	case b.Info()&types.IsBoolean != 0:
+		opaque = false
 		vals, texts = []Val{boolVal(true), boolVal(false), boolVal(true)}, []string{"T", "F", "T"}
-	case b.Info()&types.IsFloat != 0:
-		for _, x := range []float64{1.5, -2, 1e21} {
-			if f.ByteSz == 4 {
-				x = float64(float32(x))
-			}
-			vals = append(vals, floatVal(x))
-			texts = append(texts, strconv.FormatFloat(x, 'g', -1, 8*f.ByteSz))
-		}
-	case b.Info()&types.IsUnsigned != 0:
-		for _, x := range []int64{0, 7, 255} {
-			vals = append(vals, int64Val(x))
-			texts = append(texts, strconv.FormatInt(x, 10))
-		}
-	case b.Info()&types.IsInteger != 0:
-		for _, x := range []int64{-5, 0, 127} {
-			vals = append(vals, int64Val(x))
-			texts = append(texts, strconv.FormatInt(x, 10))
-		}
+	case b.Info()&(types.IsFloat|types.IsInteger) != 0:
+		texts = []string{"§", "§", "§"}
 	default:
 		return "", false, false
 	}
@@ -747,8 +734,18 @@ func printsSML(p *Prog, fn *ssa.Function, f itemFormat) (detail string, decided,
 		}
 		in.PathBind["p0.values"] = Val{K: KSlice, S: "p0.values", Len: n}
 		in.PathBind["len(p0.variables)"] = int64Val(0)
-		for i := 0; i < n; i++ {
+		for i := 0; i < n && !opaque; i++ {
 			in.PathBind[fmt.Sprintf("p0.values[%d]", i)] = vals[i]
+		}
+		if opaque {
+			in.Bind = func(v ssa.Value, fr *frame) (Val, bool) {
+				if c, ok := v.(*ssa.Call); ok && fr.fn == fn {
+					if sc := c.Common().StaticCallee(); sc != nil && sc.Pkg != nil && sc.Pkg.Pkg.Path() == "strconv" && strings.HasPrefix(sc.Name(), "Format") {
+						return strVal("§"), true
+					}
+				}
+				return Val{}, false
+			}
 		}
 		out := in.Run(fn, defaultArgs(fn), nil)
 		rets := out.Frame.ReturnVals()
@@ -766,7 +763,7 @@ func printsSML(p *Prog, fn *ssa.Function, f itemFormat) (detail string, decided,
 	if len(bad) > 0 {
 		return strings.Join(bad, "; "), true, false
 	}
-	return fmt.Sprintf("evaluated on 0, 1 and 3 concrete elements the printer yields exactly <%s[n] e1 … en> with the elements in SML notation (%s)", f.SML, strings.Join(texts, " ")), true, true
+	return fmt.Sprintf("evaluated on 0, 1 and 3 elements of arbitrary value the printer yields exactly <%s[n] e1 … en>, e_i being the element's text (%s)", f.SML, strings.Join(texts, " ")), true, true
 }
 
 // regexPatterns lists, in source order, the regular expressions a function
